@@ -169,6 +169,34 @@ def case_reference(r, s, rng, doc, mode='mmd', sp=None):
         i, d = first_diff(exp, out)
         r.violate('reference:%s%s' % ('' if mode == 'mmd' else mode + ':', diff_class(exp, out, i) or construct_at(doc, exp, i)),
                   'HTML (%s) differs from the reference rendering at byte %d' % (mode, i), dict(requests=[rq]), d + '\nsource: ' + core.show(src, 600))
+    elif rng.random() < 0.2:
+        # the same structure parsed once and exported twice through the public token-tree export: each export is the prescribed HTML again
+        hist = []
+
+        def eng(sub, args):
+            q = D.req_to_json('asan', 'ENGINE', 0, ext, 0, 0 | (sub << 4), args)
+            hist.append(q)
+            rep = s.call('asan', *D.req_from_json(q), history=hist[:-1], crash_is_violation=False)
+            r.evaluations += 1
+            return rep
+        if eng(0, [src]) is not None and eng(12, [b'']) is not None:
+            alive = True
+            for k in (1, 2):
+                rep = eng(14, [b''])
+                if rep is None:
+                    alive = False
+                    break
+                if rep.status:
+                    continue
+                r.stats['tree_exports_compared'] += 1
+                o2 = rep.out.decode('utf-8', 'replace')
+                if o2.rstrip('\n') != exp.rstrip('\n'):
+                    i, d = first_diff(exp, o2)
+                    r.violate('reference:export-%d-of-one-tree:%s%s' % (k, '' if mode == 'mmd' else mode + ':', diff_class(exp, o2, i) or construct_at(doc, exp, i)),
+                              'export %d of one parsed tree (%s) differs from the reference rendering at byte %d' % (k, mode, i), dict(requests=list(hist)), d + '\nsource: ' + core.show(src, 600))
+                    break
+            if alive:
+                eng(9, [b''])
     return src
 
 
